@@ -38,21 +38,34 @@ class DistinguisherMixin(abc.ABC):
         logger.info(f'Start update of distinguisher {self.__class__.__name__} with traces {traces.shape} and data {data.shape}.')
         o_shape = data.shape
         data = data.reshape((o_shape[0], -1))
+        # State to restore if this batch is refused: nothing is accumulated before the checks of _update,
+        # so only the traces count (and, for a first call, everything set by the initialization) has to be rolled back.
+        processed_traces = self.processed_traces
+        initial_state = None
         try:
-            self._origin_shape
-        except AttributeError:
-            logger.debug('Initialize distinguisher state.')
-            self._origin_shape = o_shape
-            logger.debug(f'Origin shape {self._origin_shape}')
-            mem = psutil.virtual_memory().available / 2 ** 30
-            logger.debug(f'Memory usage before compute {mem} GB.')
-            self._initialize(traces=traces, data=data)
+            try:
+                self._origin_shape
+            except AttributeError:
+                logger.debug('Initialize distinguisher state.')
+                initial_state = dict(self.__dict__)
+                self._origin_shape = o_shape
+                logger.debug(f'Origin shape {self._origin_shape}')
+                mem = psutil.virtual_memory().available / 2 ** 30
+                logger.debug(f'Memory usage before compute {mem} GB.')
+                self._initialize(traces=traces, data=data)
 
-        self._check(traces=traces, data=data)
+            self._check(traces=traces, data=data)
 
-        self.processed_traces += traces.shape[0]
-        logger.info('Will call _update traces.')
-        self._update(traces=traces, data=data)
+            self.processed_traces += traces.shape[0]
+            logger.info('Will call _update traces.')
+            self._update(traces=traces, data=data)
+        except Exception:
+            if initial_state is not None:
+                self.__dict__.clear()
+                self.__dict__.update(initial_state)
+            else:
+                self.processed_traces = processed_traces
+            raise
 
     @abc.abstractmethod
     def _initialize(self, traces, data):
